@@ -31,7 +31,7 @@ tvars == <<l, fails, st, stats, done>>
 
 StoreSet(q) == {q[i] : i \in DOMAIN q}
 \* the walker found something that is not a directory at the staging root path
-Obstructed(r) == Has(r, "sroot") /\ r.sroot = "file"
+Obstructed(r) == Has(r, "sroot") /\ r.sroot \in {"file", "link", "other"}
 
 \* the I/O fault the driver arranged around a Stage or Recv call:
 \*   [kind |-> "none"] | [kind |-> "fsize", limit |-> bytes]  RLIMIT_FSIZE: genuine short write + EFBIG
